@@ -44,7 +44,7 @@ TEXT["C15"] = {
              "min(count over the unrolled instruction stream, 2^64-1) — it never wraps. Correspondence under ASan+UBSan: all count queries and compute_stats vs the Lean closed forms, coordinate queries and "
              "every DEM query vs a one-instruction-at-a-time Lean executor in exact rationals, and histories of mutating API calls whose results must have the same normal form as the list operation "
              "on the operands while every source object has already been destroyed.",
-    "note": COMMON_NOTE + "Coordinate closed forms and the normal-form argument are compared, not proved (partial). The monotonic-buffer pointer discipline is observed through ASan, not modelled.",
+    "note": COMMON_NOTE + "Coordinate closed forms are compared, not proved (partial); the normal-form comparison is proved sound (C15b.atoms_normalize, same_normal_form_same_stream). The monotonic-buffer pointer discipline is observed through ASan, not modelled.",
     "technique": "Lean 4 theorems (mutual structural induction, saturating arithmetic) + oracle correspondence on API histories under ASan",
 }
 TEXT["C02"] = {
